@@ -27,3 +27,16 @@ type Dst struct {
 	ID   int
 	Meta Meta
 }
+
+// SrcG hands out its Meta through a getter; DstG has a field of that name and type.
+type SrcG struct {
+	ID   int
+	meta Meta
+}
+
+func (s *SrcG) Info() Meta { return s.meta }
+
+type DstG struct {
+	ID   int
+	Info Meta
+}
